@@ -4,6 +4,7 @@ import (
 	"context"
 	"errors"
 	"fmt"
+	"time"
 
 	"github.com/tychoish/fun/pubsub"
 	"verif/simrt"
@@ -21,6 +22,7 @@ type blkOp struct {
 	ctx      context.Context
 	cancel   context.CancelFunc
 	canceled bool // cancel() was invoked by the harness
+	deadline bool // the context carries a deadline (fake clock) instead
 }
 
 type blkTarget struct {
@@ -45,6 +47,11 @@ func c07Judge(w *W, tg *blkTarget, ops []*blkOp, phase string) {
 		}
 		site := simrt.SiteOf(op.task)
 		switch {
+		case op.deadline:
+			// quiescence is only declared after the fake clock has been advanced
+			// far beyond every deadline of the run
+			w.Violate("blocked-after-deadline", fmt.Sprintf("blocked-after-deadline:%s.%s@%s", tg.typ, op.name, site),
+				"%s: %s.%s still blocked at %s although its context's deadline has passed (len=%d closed=%v)", phase, tg.typ, op.name, site, n, tg.closed)
 		case op.canceled:
 			w.Violate("blocked-after-cancel", fmt.Sprintf("blocked-after-cancel:%s.%s@%s", tg.typ, op.name, site),
 				"%s: %s.%s still blocked at %s although its context was cancelled (len=%d closed=%v)", phase, tg.typ, op.name, site, n, tg.closed)
@@ -84,7 +91,7 @@ func c07Run(w *W, tg *blkTarget, prefill int) {
 	for i := 0; i < nCons; i++ {
 		k := simrt.Choose(len(tg.consumers))
 		op := &blkOp{kind: "consumer", name: tg.consNames[k]}
-		op.ctx, op.cancel = context.WithCancel(w.Ctx)
+		op.ctx, op.cancel = c07Ctx(w, op)
 		ops = append(ops, op)
 		fn := tg.consumers[k]
 		simrt.Spawn("consumer:"+op.name, func() {
@@ -99,7 +106,7 @@ func c07Run(w *W, tg *blkTarget, prefill int) {
 		next++
 		v := next
 		op := &blkOp{kind: "producer", name: tg.prodNames[k], val: v}
-		op.ctx, op.cancel = context.WithCancel(w.Ctx)
+		op.ctx, op.cancel = c07Ctx(w, op)
 		ops = append(ops, op)
 		fn := tg.producers[k]
 		simrt.Spawn("producer:"+op.name, func() {
@@ -167,7 +174,7 @@ func c07Run(w *W, tg *blkTarget, prefill int) {
 	}
 	// phase 2: cancel one blocked operation's context; it must return.
 	for _, op := range ops {
-		if op.state == 1 && !op.canceled {
+		if op.state == 1 && !op.canceled && !op.deadline {
 			op.canceled = true
 			op.cancel()
 			w.Fault("cancel-at-quiescence")
@@ -188,7 +195,7 @@ func c07Run(w *W, tg *blkTarget, prefill int) {
 	simrt.Quiesce()
 	c07Judge(w, tg, ops, "quiescence-3(after close)")
 	for _, op := range ops {
-		if op.state == 2 && op.err != nil && !errors.Is(op.err, context.Canceled) && !errors.Is(op.err, pubsub.ErrQueueClosed) &&
+		if op.state == 2 && op.err != nil && !errors.Is(op.err, context.Canceled) && !errors.Is(op.err, context.DeadlineExceeded) && !errors.Is(op.err, pubsub.ErrQueueClosed) &&
 			!errors.Is(op.err, pubsub.ErrQueueFull) && !errors.Is(op.err, pubsub.ErrQueueNoCredit) {
 			w.Violate("unexpected-error", fmt.Sprintf("unexpected-error:%s.%s", tg.typ, op.name), "%s.%s returned %v", tg.typ, op.name, op.err)
 		}
@@ -196,6 +203,17 @@ func c07Run(w *W, tg *blkTarget, prefill int) {
 }
 
 func (w *W) faulty() bool { return w.wl.Faulty }
+
+// c07Ctx gives a blocking operation its own context: cancellable, or (in the
+// deadline family) with a deadline on the fake clock.
+func c07Ctx(w *W, op *blkOp) (context.Context, context.CancelFunc) {
+	if w.wl.ClockJump > 0 && simrt.Choose(2) == 1 {
+		op.deadline = true
+		w.Fault("deadline")
+		return context.WithTimeout(w.Ctx, time.Duration(1+simrt.Choose(40))*time.Millisecond)
+	}
+	return context.WithCancel(w.Ctx)
+}
 
 func queueTarget(w *W) *blkTarget {
 	var q *pubsub.Queue[int]
@@ -252,6 +270,12 @@ func dequeTarget(w *W) *blkTarget {
 }
 
 func init() {
+	Register(&Workload{Prop: "C07", Name: "queue-deadline", Faulty: true, MaxSteps: 4000, ClockJump: 25, Run: func(w *W) {
+		c07Run(w, queueTarget(w), simrt.Choose(3))
+	}})
+	Register(&Workload{Prop: "C07", Name: "deque-deadline", Faulty: true, MaxSteps: 4000, ClockJump: 25, Run: func(w *W) {
+		c07Run(w, dequeTarget(w), simrt.Choose(3))
+	}})
 	for _, faulty := range []bool{false, true} {
 		suffix := ""
 		if faulty {
